@@ -126,4 +126,52 @@ def constructAll (c : Cache) (ms : List ModelRef) : Cache × List ModelRef :=
 
 def Cache.WF (c : Cache) : Prop := ∀ e ∈ c, e.2.key = e.1
 
+/-! ### layer objects: `override_relu_gradient` clones the model and re-routes the clone's ReLU sites -/
+
+/-- back-propagation rule a ReLU site currently routes to -/
+inductive Rule | plain | deconv | guided
+  deriving DecidableEq, Repr, Inhabited
+
+/-- a layer object: is it a standard ReLU site (ReLU layer or fused relu activation), and its current rule -/
+structure LayerObj where
+  relu : Bool
+  rule : Rule
+  deriving DecidableEq, Repr, Inhabited
+
+/-- the heap of live layer objects; the position is the object identity -/
+abbrev Heap := List LayerObj
+
+/-- a Keras model: the identities of its layers, in order -/
+abbrev LModel := List Nat
+
+/-- `clone_model`: a fresh copy of every layer is allocated at the end of the heap -/
+def cloneModel (h : Heap) (m : LModel) : Heap × LModel :=
+  (h ++ m.map (fun i => h[i]?.getD default), List.range' h.length m.length)
+
+/-- re-route one object if it is a ReLU site -/
+def setRule1 (r : Rule) (h : Heap) (i : Nat) : Heap :=
+  match h[i]? with
+  | some l => if l.relu then h.set i { l with rule := r } else h
+  | none => h
+
+def setRule (h : Heap) (ids : List Nat) (r : Rule) : Heap := ids.foldl (setRule1 r) h
+
+/-- `override_relu_gradient(model, policy)`: clone, then re-route the CLONE's ReLU sites; returns the clone -/
+def overrideClone (h : Heap) (m : LModel) (r : Rule) : Heap × LModel :=
+  let c := cloneModel h m
+  (setRule c.1 c.2 r, c.2)
+
+/-- successive DeconvNet / GuidedBackprop constructions on (possibly different) user models -/
+def overrideAll (h : Heap) (steps : List (LModel × Rule)) : Heap × List LModel :=
+  steps.foldl (fun (acc : Heap × List LModel) s =>
+    let r := overrideClone acc.1 s.1 s.2; (r.1, acc.2 ++ [r.2])) (h, [])
+
+/-- the rules of a model's ReLU sites as currently routed -/
+def rulesOf (h : Heap) (m : LModel) : List Rule :=
+  (m.filterMap fun i => h[i]?).filterMap fun l => if l.relu then some l.rule else none
+
+/-- a variant that shares the "stateless" (ReLU) layer objects between the model and its clone - NOT the code -/
+def overrideShared (h : Heap) (m : LModel) (r : Rule) : Heap × LModel :=
+  (setRule h m r, m)
+
 end Xp.Hist
